@@ -1,6 +1,6 @@
 (* Compiled on every check run (never cached): statement pins and axioms. *)
 From Coq Require Import Permutation.
-From Stam Require Import Base.Tac Model.Rel Model.Search Proofs.Rel Proofs.Search Props.C06.
+From Stam Require Import Base.Tac Model.Rel Model.Search Proofs.Rel Proofs.Search Proofs.SearchEach Props.C06.
 Check (C06_sound : forall ws o R K len h, generic o ->
   In h (search ws o R K len) -> In h (related ws o R K)).
 Check (C06_complete : forall ws o R K len h, generic o ->
@@ -20,3 +20,8 @@ Print Assumptions C06_never_the_reference.
 Print Assumptions C06_range_covers.
 Print Assumptions C06_equals_sound.
 Print Assumptions C06_equals_returns_self.
+Check (C06_from_iterator_exact : forall ws o refs K len h, generic o -> Forall wf refs -> known_ok K len ->
+  (In h (search_each ws o refs K len) <-> exists r, In r refs /\ In h (related ws o (mkset [r] false) K))).
+Check (C06_from_iterator_each_once : forall ws o refs K len, NoDup (search_each ws o refs K len)).
+Print Assumptions C06_from_iterator_exact.
+Print Assumptions C06_from_iterator_each_once.
